@@ -845,6 +845,26 @@ def check(ctx):
                 "transport.abortConnection()": call_nodes(g, "self.transport.abortConnection")}
         for what, ns in need.items():
             ctx.check(bool(ns) and g.must_pass([g.entry], ns) is None, "abort/complete", q + f" | {what}", f"abortConnection() does not always perform {what}")
+    with ctx.section("presence of the producer"):
+        # sibling agreement: _producer holds a foreign object (the membrane around the application's producer); whether one is registered is decided by
+        # identity with None at every site, never by truthiness
+        nsites = 0
+        for c_ in (cls, sub):
+            for name, m in methods(c_).items():
+                qn = Q + f"{c_.name}.{name}"
+                for x in walk_local(m):
+                    operands = [x.test] if isinstance(x, (ast.If, ast.While, ast.IfExp, ast.Assert)) else list(x.values) if isinstance(x, ast.BoolOp) else \
+                        [x.operand] if isinstance(x, ast.UnaryOp) and isinstance(x.op, ast.Not) else []
+                    for o in operands:
+                        if src(o) == "self._producer":
+                            nsites += 1
+                            ctx.violation("presence/decided-by-identity", ctx.construct(qn, x.test if isinstance(x, (ast.If, ast.While)) else x),
+                                          "whether a producer is registered is decided by the truthiness of the producer object here, by 'is None' everywhere else: a "
+                                          "registered producer that is falsy is treated as absent (TLS shutdown started over it / never resumed)")
+                    if isinstance(x, ast.Compare) and len(x.ops) == 1 and src(x.left) == "self._producer" and const_value_is(x.comparators[0], lambda v: v is None):
+                        nsites += 1
+                        ctx.check(isinstance(x.ops[0], (ast.Is, ast.IsNot)), "presence/decided-by-identity", ctx.construct(qn, x), "self._producer compared with None by ==/!=")
+        ctx.floor("presence/decided-by-identity", nsites, 4)
     with ctx.section("liveness of a postponed close"):
         _liveness(ctx)
 
@@ -910,6 +930,8 @@ MUTANTS = [
            expect_rule="aggregate/size-coupled"),
     Mutant("rebuffered-suffix-through-wrong-temporary", T, "                self._bufferedWrite(bytes[alreadySent:])\n", "                rest = bytes[alreadySent + bufferSize :]\n                self._bufferedWrite(rest)\n",
            expect_rule="write/wantread-rebuffers-unsent-suffix"),
+    Mutant("producer-presence-by-truthiness-in-lose", T, "        if not self._appSendBuffer and self._producer is None:\n            self._shutdownTLS()\n\n    def abortConnection",
+           "        if not self._appSendBuffer and not self._producer:\n            self._shutdownTLS()\n\n    def abortConnection", expect_rule="presence/decided-by-identity"),
     Mutant("buffering-writesequence-bypasses-aggregator", T, "        self._aggregator.write(b\"\".join(sequence))", "        super().write(b\"\".join(sequence))",
            expect_rule="aggregate/sequence-routes-through-aggregator"),
 ]
